@@ -261,9 +261,8 @@ MUST_FIRE = [
         (P + "classifier/_mixture_model_classifier.py", "self.mixture_model_ = deepcopy(self.mixture_model)", "self.mixture_model_ = self.mixture_model"),
         (P + "pool/_four_ds.py", "            clf = clone(clf).fit(X, y, sample_weight)\n",
          "            clf = clone(clf).set_params(mixture_model=clf.mixture_model)\n            clf = clf.fit(X, y, sample_weight)\n")]),
-    ("ranvar-update-decays-per-remaining-instance", ["C04"], ["R4.6"], BZ,
-     "        for s in queried:\n            if self.budget_ > self.u_t_ / self.w:\n                if s:\n                    self.theta_ *= 1 - self.s\n                else:\n                    self.theta_ *= 1 + self.s\n        super().update(candidates, queried_indices)\n",
-     "        for i, s in enumerate(queried):\n            if self.budget_ > self.u_t_ / self.w:\n                if s:\n                    self.theta_ *= 1 - self.s\n                else:\n                    self.theta_ *= 1 + self.s\n            super().update(candidates[i:], [0] if s else [])\n"),
+    ("ranvar-update-decays-per-remaining-instance", ["C04"], ["R4.6"], [
+        (BZ, "        for s in queried:\n            if self.budget_ > u_t / self.w:", "        for i, s in enumerate(queried):\n            super().update(candidates[i:], [0] if s else [])\n            if self.budget_ > u_t / self.w:")]),
     ("stream-random-counts-index-values", ["C04"], ["R4.6"], P + "stream/_stream_baselines.py",
      "        self.queried_samples_ += np.sum(queried)\n        # update the random state", "        self.queried_samples_ += np.count_nonzero(queried_indices)\n        # update the random state"),
     ("periodic-observed-counts-elements", ["C04"], ["R4.6"], P + "stream/_stream_baselines.py",
